@@ -39,6 +39,16 @@ func checkC05(cfg *core.Config) int {
 			rep.Violate(core.Violation{Signature: "refused:sqlcrud:" + classifyTSError(d), Case: p.ID, Files: files, Message: fmt.Sprintf("the CRUD generator refused model file %s: %s", p.ID, d)})
 			continue
 		}
+		hasUnion := false
+		for f := range p.Features {
+			if strings.Contains(f, "union") {
+				hasUnion = true
+			}
+		}
+		if hasUnion && !pr.hasGen(p.ID, "gounions") {
+			rep.Count("programs-without-union-wrappers-skipped", 1) // decided by C01
+			continue
+		}
 		if !pr.rn.Progs[p.ID] || !pr.hasGen(p.ID, "sqlcrud-sets") {
 			rep.Count("programs-whose-crud-output-does-not-compile", 1) // decided by C01
 			continue
